@@ -91,6 +91,9 @@ class TapeDist(ciw.dists.Distribution):
         bad = tp.get("bad_at")
         if bad is not None and bad["i"] == i:
             v = bad["v"]
+        elif tp.get("np") and isinstance(v, float):
+            import numpy
+            v = numpy.float64(v)       # a float subclass: what a distribution computing with numpy returns
         return v
 
     def sample(self, t=None, ind=None):
